@@ -309,6 +309,29 @@ def classify_overrides(chk, tf: TestFacts, rule, require=None):
         except symx.Unsupported as e:
             raise AnalysisError(f"{name}: override value {norm(val_node)} outside the dialect: {e}")
         key = f"store:{norm(idx_node)[:60]}"
+        scond = an.store_cond.get(id(st), True)
+        if an.store_kind.get(id(st)) == "history":
+            # a store into the capped history: 1 is conservative; 0 (p = 0) only at the last entry when the total exceeds N t
+            okh = False
+            if isinstance(v, E) and v.e == 1:
+                okh = True
+            elif isinstance(v, E) and v.e == 0 and nnm_const_int(idx_node) == -1 and scond is not True:
+                sh = spec["shift"]
+                want = ("atom", f"lt({sp.sstr(N * (t + sh) if sh != 0 else N * t)},{sp.sstr(STOT(x + sh) if sh != 0 else STOT(x))})")
+                okh = cond_equiv(scond, want)
+            chk.ob(rule, W(name), key + "@history", okh,
+                   "a store into the p-value history assigns 1 (conservative), or 0 at the last entry only when the observed total exceeds N t",
+                   node=st, statement=norm(st)[:160], condition=fmt_cond(scond) if scond is not True else "unconditional")
+            continue
+        if scond is not True and not (isinstance(v, E) and v.e.is_Number and 0 <= v.e <= 1):
+            # a conditional +inf override: the condition itself must be a null-impossible event
+            sh = spec["shift"]
+            want = ("atom", f"lt({sp.sstr(N * (t + sh) if sh != 0 else N * t)},{sp.sstr(STOT(x + sh) if sh != 0 else STOT(x))})")
+            okc = isinstance(v, E) and sp.sstr(v.e) in INF_TXT and nnm_const_int(idx_node) == -1 and cond_equiv(scond, want)
+            chk.ob(rule, W(name), key + "@conditional", okc,
+                   "a conditional +inf override is confined to the last entry and to the event `observed total exceeds N t`",
+                   node=st, statement=norm(st)[:160], condition=fmt_cond(scond))
+            continue
         if isinstance(v, E) and v.e.is_Number:
             ok = bool(v.e <= 1) and bool(v.e >= 0)
             kinds.append(("const", norm(idx_node), v.e))
@@ -385,6 +408,13 @@ def rule_boundary_conventions(chk, tf: TestFacts, rule):
             want = Tx(env={"MU": spec_mean_val(spec), "U": E(u)}).cond(ast.parse("MU > U", mode="eval").body)
             if cond_equiv(c, want):
                 have_gt_u = True
+        scond = an.store_cond.get(id(st), True)
+        if nnm_const_int(idx_node) == -1 and scond is not True:
+            want = ("atom", f"lt({sp.sstr(N * t)},{sp.sstr(STOT(x))})")
+            hist0 = an.store_kind.get(id(st)) == "history" and isinstance(v, E) and v.e == 0
+            stat_inf = an.store_kind.get(id(st)) == "stat" and isinstance(v, E) and sp.sstr(v.e) in INF_TXT
+            if (hist0 or stat_inf) and cond_equiv(scond, want):
+                have_last = True
         if nnm_const_int(idx_node) == -1 and isinstance(val_node, ast.IfExp):
             a, b = norm(val_node.body), norm(val_node.orelse)
             if (a in INF_TXT and b == f"{target}[-1]"):
@@ -429,6 +459,7 @@ def rule_overall_matches_history(chk, tf: TestFacts, rule):
     name = tf.name
     an = tf.an
     late = nnm.stale_statistic_uses(an, an.ret.value.elts[0])
+    hist_stores = [st.lineno for st, *_ in an.stores if an.store_kind.get(id(st)) == "history"]
     for rnd in (True, False):
         ok = True
         observed = set()
@@ -471,6 +502,11 @@ def rule_overall_matches_history(chk, tf: TestFacts, rule):
             ok = False
             observed.add("computed-before-overrides")
             detail["stale_lines"] = late
+        if hist_stores:
+            # an in-place store into the capped history is invisible to an overall value computed from the statistic
+            ok = False
+            observed.add("history-modified-in-place")
+            detail["history_stores"] = hist_stores
         if n_rows == 0:
             continue
         got = "+".join(sorted(observed))
